@@ -1,6 +1,7 @@
 import Model.Train
 import Proofs.OptimizerLemmas
 import Proofs.ParamCount
+import Props.C15
 
 /-!
 # C10 — feedback blocks keep their repeated layers weight-tied
@@ -14,7 +15,7 @@ from its point of view); accumulations add / subtract / multiply / mean.
 set_option linter.unusedSectionVars false
 
 namespace C10
-open Feedback Scalar ParamCount
+open Feedback Scalar ParamCount Tensor
 
 variable {α : Type} [Scalar α]
 
@@ -476,6 +477,145 @@ example (x : α) :
   · simp [heldScalars, kernelScalars, v3count]
   · simp [heldScalars, kernelScalars, v3count]
 
+
+/-! ### the VALUE every copy of a group receives (mean and additive coupling, one tensor per copy: weights, or biases) -/
+
+/-- element-wise running sum of flat sequences, left to right -/
+def sumFlat (first : List α) (rest : List (List α)) : List α :=
+  rest.foldl (fun cur c => List.zipWith (· + ·) cur c) first
+
+/-- the running tensor sum (total: an addition that is refused leaves the running value) -/
+def sumT (cur : Tensor α) (rest : List (Tensor α)) : Tensor α :=
+  rest.foldl (fun a t => (a.add t).toOption.getD a) cur
+
+theorem sumT_spec : ∀ (rest : List (Tensor α)) (cur : Tensor α), cur.Wf → (∀ t ∈ rest, t.Wf ∧ t.shape = cur.shape) →
+    (sumT cur rest).shape = cur.shape ∧ (sumT cur rest).Wf ∧ (sumT cur rest).flat = sumFlat cur.flat (rest.map Tensor.flat)
+  | [], cur, hc, _ => ⟨rfl, hc, rfl⟩
+  | t :: ts, cur, hc, h => by
+    obtain ⟨r, hr, hs, hw, hf⟩ := C15.add_spec cur t hc (h t (by simp)).1 (h t (by simp)).2.symm
+    have ih := sumT_spec ts r hw (fun x hx => ⟨(h x (by simp [hx])).1, by rw [hs]; exact (h x (by simp [hx])).2⟩)
+    simp only [sumT, List.foldl_cons, hr, Except.toOption, Option.getD_some] at ih ⊢
+    simp only [sumFlat, List.map_cons, List.foldl_cons] at ih ⊢
+    rw [← hf]
+    exact ⟨ih.1.trans hs, ih.2.1, ih.2.2⟩
+
+theorem fold_singletons (g : Except Err (List (Tensor α)) → List (Tensor α) → Except Err (List (Tensor α)))
+    (hg : ∀ cur c r, cur.add c = .ok r → g (.ok [cur]) [c] = .ok [r]) :
+    ∀ (rest : List (Tensor α)) (cur : Tensor α), cur.Wf → (∀ t ∈ rest, t.Wf ∧ t.shape = cur.shape) →
+      (rest.map (fun t => [t])).foldl g (.ok [cur]) = .ok [sumT cur rest]
+  | [], cur, _, _ => rfl
+  | t :: ts, cur, hc, h => by
+    obtain ⟨r, hr, hs, hw, _⟩ := C15.add_spec cur t hc (h t (by simp)).1 (h t (by simp)).2.symm
+    simp only [List.map_cons, List.foldl_cons, hg cur t r hr]
+    rw [fold_singletons g hg ts r hw (fun x hx => ⟨(h x (by simp [hx])).1, by rw [hs]; exact (h x (by simp [hx])).2⟩)]
+    simp [sumT, hr, Except.toOption]
+
+/-- **the value a mean-coupled group receives**: for copies holding one tensor each (a dense layer's weights, or its bias)
+    of one shape, `couple .mean` answers ONE tensor of that shape whose elements are the left-to-right sum of the copies'
+    elements divided — once — by the number of copies -/
+theorem couple_mean_value (w0 : Tensor α) (ws : List (Tensor α)) (h0 : w0.Wf) (h : ∀ t ∈ ws, t.Wf ∧ t.shape = w0.shape) :
+    ∃ r, couple .mean ((w0 :: ws).map (fun t => [t])) = .ok [r] ∧ r.shape = w0.shape ∧ r.Wf ∧
+      r.flat = (sumFlat w0.flat (ws.map Tensor.flat)).map (· / ofNat' (ws.length + 1)) := by
+  obtain ⟨hs, hw, hf⟩ := sumT_spec ws w0 h0 h
+  obtain ⟨ds, dw, df⟩ := C15.divScalar_spec (sumT w0 ws) (ofNat' (ws.length + 1)) hw
+  refine ⟨(sumT w0 ws).divScalar (ofNat' (ws.length + 1)), ?_, ds.trans hs, dw, by rw [df, hf]⟩
+  unfold couple
+  simp only [List.map_cons]
+  rw [fold_singletons _ _ ws w0 h0 h]
+  · simp
+  · intro cur c r hr
+    simp [L.mapM', hr]
+
+/-- … and an additively coupled group receives the left-to-right sum itself -/
+theorem couple_add_value (w0 : Tensor α) (ws : List (Tensor α)) (h0 : w0.Wf) (h : ∀ t ∈ ws, t.Wf ∧ t.shape = w0.shape) :
+    ∃ r, couple .add ((w0 :: ws).map (fun t => [t])) = .ok [r] ∧ r.shape = w0.shape ∧ r.Wf ∧
+      r.flat = sumFlat w0.flat (ws.map Tensor.flat) := by
+  obtain ⟨hs, hw, hf⟩ := sumT_spec ws w0 h0 h
+  refine ⟨sumT w0 ws, ?_, hs, hw, hf⟩
+  unfold couple
+  simp only [List.map_cons]
+  rw [fold_singletons _ _ ws w0 h0 h]
+  · simp
+  · intro cur c r hr
+    simp [L.mapM', hr]
+
+theorem filterMap_members (ls : List (InnerLayer α)) : ∀ (group : List Nat) (ds : List (DenseLayer α)),
+    group.map (L.get? ls) = ds.map (fun d => some (InnerLayer.dense d)) →
+    group.filterMap (fun i => (L.get? ls i).bind paramsOf) = ds.map (fun d => ([d.weights], d.bias))
+  | [], [], _ => rfl
+  | [], _ :: _, h => by simp at h
+  | _ :: _, [], h => by simp at h
+  | i :: is, d :: ds, h => by
+    simp only [List.map_cons, List.cons.injEq] at h
+    simp only [List.filterMap_cons, h.1, Option.bind_some, paramsOf, List.map_cons]
+    rw [filterMap_members ls is ds h.2]
+
+theorem biases_of_members : ∀ (ds : List (DenseLayer α)),
+    (ds.map (fun d => (([d.weights], d.bias) : List (Tensor α) × Option (Tensor α)))).filterMap (·.2) = (ds.map (·.bias)).filterMap id
+  | [] => rfl
+  | d :: ds => by
+    simp only [List.map_cons, List.filterMap_cons, id]
+    cases d.bias <;> simp [biases_of_members ds]
+
+theorem filterMap_id_some {β : Type} : ∀ (l : List β), (l.map some).filterMap id = l
+  | [] => rfl
+  | x :: xs => by simp [filterMap_id_some xs]
+
+/-- **the value a mean-coupled group of dense layers receives** (`Feedback::update`'s re-coupling): if the group's positions
+    hold dense layers `d₀, d₁, …` with well-formed weights of one shape and biases of one shape, the accumulated pair is
+    `(left-to-right sum of the weights / count, left-to-right sum of the biases / count)` — each divided ONCE, by the number
+    of copies; `recoupleGroup_spec` then says every copy is overwritten with exactly this pair -/
+theorem groupParams_mean_dense (ls : List (InnerLayer α)) (i0 : Nat) (is : List Nat) (d0 : DenseLayer α) (ds : List (DenseLayer α))
+    (b0 : Tensor α) (bs : List (Tensor α))
+    (hg : (i0 :: is).map (L.get? ls) = (d0 :: ds).map (fun d => some (InnerLayer.dense d)))
+    (hb : (d0 :: ds).map (·.bias) = (b0 :: bs).map some)
+    (hw0 : d0.weights.Wf) (hw : ∀ d ∈ ds, d.weights.Wf ∧ d.weights.shape = d0.weights.shape)
+    (hb0 : b0.Wf) (hbs : ∀ b ∈ bs, b.Wf ∧ b.shape = b0.shape) :
+    ∃ rw rb, groupParams .mean ls (i0 :: is) = .ok (some ([rw], some rb)) ∧
+      rw.shape = d0.weights.shape ∧ rb.shape = b0.shape ∧
+      rw.flat = (sumFlat d0.weights.flat (ds.map (·.weights.flat))).map (· / ofNat' (ds.length + 1)) ∧
+      rb.flat = (sumFlat b0.flat (bs.map Tensor.flat)).map (· / ofNat' (bs.length + 1)) := by
+  have hlen : bs.length = ds.length := by
+    have := congrArg List.length hb
+    simpa using this.symm
+  obtain ⟨rw, hrw, hsw, _, hfw⟩ := couple_mean_value d0.weights (ds.map (·.weights)) hw0 (by
+    intro t ht; obtain ⟨d, hd, rfl⟩ := List.mem_map.1 ht; exact hw d hd)
+  obtain ⟨rb, hrb, hsb, _, hfb⟩ := couple_mean_value b0 bs hb0 hbs
+  refine ⟨rw, rb, ?_, hsw, hsb, by rw [hfw, List.length_map, List.map_map]; rfl, hfb⟩
+  have hmem := filterMap_members ls (i0 :: is) (d0 :: ds) hg
+  have hbias : ((d0 :: ds).map (fun d => (([d.weights], d.bias) : List (Tensor α) × Option (Tensor α)))).filterMap (·.2) = b0 :: bs := by
+    rw [biases_of_members, hb, filterMap_id_some]
+  have hany : (i0 :: is).any (fun i => (L.get? ls i).isNone) = false := by
+    rw [List.any_eq_false]
+    intro i hi
+    have : L.get? ls i ∈ (i0 :: is).map (L.get? ls) := List.mem_map.2 ⟨i, hi, rfl⟩
+    rw [hg] at this
+    obtain ⟨d, _, hd⟩ := List.mem_map.1 this
+    simp [← hd]
+  have hw1 : ((d0 :: ds).map (fun d => (([d.weights], d.bias) : List (Tensor α) × Option (Tensor α)))).map (·.1)
+      = (d0.weights :: ds.map (·.weights)).map (fun t => [t]) := by
+    simp [List.map_map, Function.comp_def]
+  unfold groupParams
+  simp only [hmem]
+  simp only [List.map_cons] at hw1 hbias hrw hrb ⊢
+  simp only [hw1, hrw, hbias, List.map_cons, hrb, hany]
+  simp
+
+/-! non-vacuity: two dense copies `2 → 1` with bias, group `[0, 1]` -/
+example (x y z : α) :
+    let d : DenseLayer α := { inputs := .single 2, outputs := .single 1, loops := x, scale := id, weights := ⟨.double 1 2, .double [[x, y]]⟩, bias := some ⟨.single 1, .single [z]⟩, act := .tanh, dropout := none, training := false }
+    ∃ rw rb, groupParams .mean [InnerLayer.dense d, InnerLayer.dense d] [0, 1] = .ok (some ([rw], some rb)) ∧
+      rw.flat = [(x + x) / ofNat' 2, (y + y) / ofNat' 2] ∧ rb.flat = [(z + z) / ofNat' 2] := by
+  intro d
+  obtain ⟨rw, rb, h, -, -, h1, h2⟩ := groupParams_mean_dense [InnerLayer.dense d, InnerLayer.dense d] 0 [1] d [d]
+    ⟨.single 1, .single [z]⟩ [⟨.single 1, .single [z]⟩] (by simp [L.get?]) (by simp [d]) (by simp [Tensor.Wf, d]) (by simp [Tensor.Wf, d])
+    (by simp [Tensor.Wf]) (by simp [Tensor.Wf])
+  exact ⟨rw, rb, h, by simpa [sumFlat, Tensor.flat, d] using h1, by simpa [sumFlat, Tensor.flat] using h2⟩
+
+/-! non-vacuity: three well-formed copies of one shape -/
+example (x y : α) : let w : Tensor α := ⟨.single 2, .single [x, y]⟩
+    w.Wf ∧ ∀ t ∈ [w, w], t.Wf ∧ t.shape = w.shape := by
+  simp [Tensor.Wf]
 
 /-! non-vacuity: three loops of a two-layer block -/
 example : (List.range 3).map (fun i => 1 + i * 2) = [1, 3, 5] := by decide
